@@ -967,4 +967,106 @@ theorem roundRat_congr_rat (n1 n2 : Int) (d1 d2 : Nat) (h1 : 0 < d1) (h2 : 0 < d
   rw [div_eq_div_iff hd1 hd2] at h
   exact_mod_cast h
 
+/-! ## the tie rule, on the bit pattern -/
+
+/-- an even significand (in units of the binade's spacing) gives an even bit pattern -/
+theorem encodeNat_even (neg : Bool) (k s : Nat) (hk : k ≤ 2 ^ 53) (hk2 : k % 2 = 0) (hr : Rep (k * 2 ^ s)) :
+    encodeNat neg (k * 2 ^ s) % 2 = 0 := by
+  have hZ2 : (k * 2 ^ s) % 2 = 0 := by
+    rw [Nat.mul_mod, hk2]; simp
+  rcases Nat.lt_or_ge (k * 2 ^ s) (2 ^ 52) with h | h
+  · unfold encodeNat; rw [if_pos h]; cases neg <;> simp <;> omega
+  · obtain ⟨m, h1, h2, h3, h4, e⟩ := encodeNat_normal neg _ hr h
+    rw [e]
+    have hm : m % 2 = 0 := by
+      generalize (k * 2 ^ s).log2 - 52 = sh at h3
+      rcases Nat.le_total sh s with hle | hle
+      · obtain ⟨t, ht⟩ := Nat.le.dest hle
+        have e1 : k * 2 ^ t * 2 ^ sh = m * 2 ^ sh := by
+          rw [← h3, ← ht, Nat.pow_add]; ring
+        have e2 : m = k * 2 ^ t := (Nat.eq_of_mul_eq_mul_right (Nat.two_pow_pos _) e1).symm
+        rw [e2, Nat.mul_mod, hk2]; simp
+      · obtain ⟨t, ht⟩ := Nat.le.dest hle
+        have e1 : k * 2 ^ s = m * 2 ^ t * 2 ^ s := by
+          rw [h3, ← ht, Nat.pow_add]; ring
+        have e2 : k = m * 2 ^ t := Nat.eq_of_mul_eq_mul_right (Nat.two_pow_pos _) e1
+        rcases Nat.eq_zero_or_pos t with h0 | h0
+        · subst h0; simp at e2; omega
+        · have h5 : 2 ^ 1 ≤ 2 ^ t := Nat.pow_le_pow_right (by decide) h0
+          have h6 : m * 2 ^ 1 ≤ m * 2 ^ t := Nat.mul_le_mul_left _ h5
+          omega
+    cases neg <;> simp <;> omega
+
+/-- **ties to even**: when a binary64 number other than the result is equally near to `num / den`, the lowest bit of
+    the result is 0 (its significand is even) -/
+theorem roundRat_tie_even (num : Int) (den : Nat) (w : UInt64) (h : roundRat num den = .ok w)
+    (z : Int) (hz : RepU z.natAbs) (hne : z ≠ sval num den)
+    (htie : ((scale : Int) * num - sval num den * den).natAbs = ((scale : Int) * num - z * den).natAbs) :
+    w.toNat % 2 = 0 := by
+  obtain ⟨hd, hl, hw⟩ := roundRat_ok h
+  have hrep := roundMag_rep _ _ hd hl
+  -- the tie on magnitudes
+  have H0 := roundMag_nearest num.natAbs den hd 0 repU_zero
+  unfold adiff at H0
+  rw [Nat.zero_mul] at H0
+  have hD : (0 : Int) < den := by exact_mod_cast hd
+  have eA : (scale : Int) * num = if num < 0 then -((scale * num.natAbs : Nat) : Int) else ((scale * num.natAbs : Nat) : Int) := by
+    split
+    · have : (num.natAbs : Int) = -num := by omega
+      rw [Nat.cast_mul, this]; ring
+    · have : (num.natAbs : Int) = num := by omega
+      rw [Nat.cast_mul, this]
+  have eP : sval num den * den = if num < 0 then -((roundMag num.natAbs den * den : Nat) : Int)
+      else ((roundMag num.natAbs den * den : Nat) : Int) := by
+    unfold sval; split <;> push_cast <;> ring
+  have eQ : z * den = if z < 0 then -((z.natAbs * den : Nat) : Int) else ((z.natAbs * den : Nat) : Int) := by
+    split
+    · have : (z.natAbs : Int) = -z := by omega
+      rw [Nat.cast_mul, this]; ring
+    · have : (z.natAbs : Int) = z := by omega
+      rw [Nat.cast_mul, this]
+  have hzpos : z ≠ 0 → 0 < z.natAbs * den := fun h0 => Nat.mul_pos (by omega) hd
+  have hmag : z.natAbs ≠ roundMag num.natAbs den ∧
+      adiff (scale * num.natAbs) (roundMag num.natAbs den * den) = adiff (scale * num.natAbs) (z.natAbs * den) := by
+    have hne1 : z.natAbs = roundMag num.natAbs den → (num < 0 ↔ z < 0) → False := by
+      intro e1 e2
+      apply hne
+      unfold sval
+      by_cases hn : num < 0
+      · rw [if_pos hn, ← e1]; have := e2.mp hn; omega
+      · rw [if_neg hn, ← e1]; have : ¬ z < 0 := fun h => hn (e2.mpr h); omega
+    have hne2 : z = 0 → roundMag num.natAbs den = 0 → False := by
+      intro e1 e2
+      apply hne
+      unfold sval; rw [e1, e2]; split <;> rfl
+    have hPQ : z.natAbs * den = roundMag num.natAbs den * den → z.natAbs = roundMag num.natAbs den :=
+      Nat.eq_of_mul_eq_mul_right hd
+    unfold adiff
+    rw [eA, eP, eQ] at htie
+    clear eA eP eQ
+    generalize scale * num.natAbs = A at *
+    generalize roundMag num.natAbs den * den = P at *
+    generalize z.natAbs * den = Q at *
+    by_cases hn : num < 0 <;> by_cases hzn : z < 0
+    · rw [if_pos hn, if_pos hn, if_pos hzn] at htie
+      refine ⟨fun e => hne1 e ⟨fun _ => hzn, fun _ => hn⟩, ?_⟩
+      omega
+    · rw [if_pos hn, if_pos hn, if_neg hzn] at htie
+      by_cases hz0 : z = 0
+      · refine ⟨fun e => hne2 hz0 (by omega), ?_⟩
+        have hQ0 : ¬ 0 < Q := fun hq => by omega
+        omega
+      · have := hzpos hz0
+        exfalso; omega
+    · rw [if_neg hn, if_neg hn, if_pos hzn] at htie
+      have := hzpos (by omega)
+      exfalso; omega
+    · rw [if_neg hn, if_neg hn, if_neg hzn] at htie
+      refine ⟨fun e => hne1 e ⟨fun h => absurd h hn, fun h => absurd h hzn⟩, ?_⟩
+      omega
+  have hk := roundMag_tie num.natAbs den hd z.natAbs hz hmag.1 hmag.2
+  rw [hw, encodeScaled_eq, UInt64.toNat_ofNat_of_lt' (encodeNat_lt _ _ hrep)]
+  rw [roundMag_eq] at hrep ⊢
+  exact encodeNat_even _ _ _ (signif_le _ _ hd) hk hrep
+
 end Yaql.Props.FloatRound
